@@ -29,6 +29,10 @@
 #include "internal/rewind_guard.hpp"
 #include "internal/until.hpp"
 
+#if defined( TAO_PEGTL_VERIF ) && !defined( TAO_PEGTL_VERIF_ACCESS )
+#define TAO_PEGTL_VERIF_ACCESS( what, need, have ) ( (void)0 )
+#endif
+
 namespace TAO_PEGTL_NAMESPACE
 {
    namespace internal
@@ -98,16 +102,25 @@ namespace TAO_PEGTL_NAMESPACE
 
          void bump( const std::size_t in_count = 1 ) noexcept
          {
+#if defined( TAO_PEGTL_VERIF )
+            TAO_PEGTL_VERIF_ACCESS( "bump", in_count, m_end - m_current.data );
+#endif
             internal::bump( m_current, in_count, Eol::ch );
          }
 
          void bump_in_this_line( const std::size_t in_count = 1 ) noexcept
          {
+#if defined( TAO_PEGTL_VERIF )
+            TAO_PEGTL_VERIF_ACCESS( "bump_in_this_line", in_count, m_end - m_current.data );
+#endif
             internal::bump_in_this_line( m_current, in_count );
          }
 
          void bump_to_next_line( const std::size_t in_count = 1 ) noexcept
          {
+#if defined( TAO_PEGTL_VERIF )
+            TAO_PEGTL_VERIF_ACCESS( "bump_to_next_line", in_count, m_end - m_current.data );
+#endif
             internal::bump_to_next_line( m_current, in_count );
          }
 
@@ -190,16 +203,25 @@ namespace TAO_PEGTL_NAMESPACE
 
          void bump( const std::size_t in_count = 1 ) noexcept
          {
+#if defined( TAO_PEGTL_VERIF )
+            TAO_PEGTL_VERIF_ACCESS( "bump", in_count, m_end - m_current );
+#endif
             m_current += in_count;
          }
 
          void bump_in_this_line( const std::size_t in_count = 1 ) noexcept
          {
+#if defined( TAO_PEGTL_VERIF )
+            TAO_PEGTL_VERIF_ACCESS( "bump_in_this_line", in_count, m_end - m_current );
+#endif
             m_current += in_count;
          }
 
          void bump_to_next_line( const std::size_t in_count = 1 ) noexcept
          {
+#if defined( TAO_PEGTL_VERIF )
+            TAO_PEGTL_VERIF_ACCESS( "bump_to_next_line", in_count, m_end - m_current );
+#endif
             m_current += in_count;
          }
 
@@ -297,6 +319,9 @@ namespace TAO_PEGTL_NAMESPACE
 
       [[nodiscard]] char peek_char( const std::size_t offset = 0 ) const noexcept
       {
+#if defined( TAO_PEGTL_VERIF )
+         TAO_PEGTL_VERIF_ACCESS( "peek_char", offset + 1, this->end() - this->current() );
+#endif
          return this->current()[ offset ];
       }
 
